@@ -4,8 +4,7 @@
 use smallvec::{Array, SmallVec};
 use std::alloc::Allocator;
 
-/// Capacity given to every owned buffer built by `sym::vec_of` / `to_vec`.
-pub const CAP: usize = 40;
+pub use crate::sym::CAP;
 
 pub fn vec_resize<T: Clone, A: Allocator>(v: &mut Vec<T, A>, new_len: usize, value: T) {
     assert!(new_len <= v.capacity(), "STUB: Vec::resize beyond the harness capacity");
